@@ -32,4 +32,50 @@ example : (match lexAll (printPrint ff0 exArg exDirs) false with
   some [.tLeftDelim, .tDollarIdent, .tElvis, .tInteger, .tPipe, .tIdent, .tColon, .tDollarIdent, .tTernIf, .tInteger, .tColon,
     .tInteger, .tComma, .tInteger, .tPipe, .tIdent, .tRightDelim, .tEOF] := by decide +kernel
 
+open SoyVerif.Inst.C17 (tableOK pf0)
+open SoyVerif.Model.Parser SoyVerif.Lemmas.ParserBasic
+open SoyVerif.Model.FileParser (parsePrint Node)
+
+/-- `print_cmd_roundtrip_bytes` without table hypotheses -/
+theorem print_cmd_roundtrip_bytes (ff : UInt64 → Bytes) (pf : Bytes → Option UInt64) (arg : Expr) (dirs : List Directive)
+    (hN : CmdOk ff arg dirs) (hC : CmdCanon ff pf arg dirs) (token : Item) :
+    ∃ items e' ds' p2, lexAll (printPrint ff arg dirs) false = .items items ∧
+      parsePrint pf (8 * items.length + 1) (2 * items.length + 2) token { p := initState items.tail } =
+        .ok (Node.print token.pos e' ds', { p := p2 }) ∧
+      erase e' = erase arg ∧ ds'.map eraseDir = dirs.map eraseDir ∧ At p2 [⟨.tEOF, []⟩] :=
+  SoyVerif.Props.C17c.print_cmd_roundtrip_bytes ff pf lexTableOK tableOK arg dirs hN hC token
+
+/-- `print_cmd_injective_bytes` without table hypotheses -/
+theorem print_cmd_injective_bytes (ff : UInt64 → Bytes) (pf : Bytes → Option UInt64) (a b : Expr) (da db : List Directive)
+    (hNa : CmdOk ff a da) (hNb : CmdOk ff b db) (hCa : CmdCanon ff pf a da) (hCb : CmdCanon ff pf b db)
+    (h : printPrint ff a da = printPrint ff b db) : erase a = erase b ∧ da.map eraseDir = db.map eraseDir :=
+  SoyVerif.Props.C17c.print_cmd_injective_bytes ff pf lexTableOK tableOK a b da db hNa hNb hCa hCb h
+
+/-- the hypotheses hold of the example `{$a ?: -1|truncate:$b ? 1 : 2,-3|id}` -/
+theorem exCmd_ok : CmdOk ff0 exArg exDirs := by
+  refine ⟨by decide, ?_⟩
+  intro d hd
+  simp only [exDirs, List.mem_cons, List.mem_nil_iff, or_false] at hd
+  rcases hd with rfl | rfl
+  · refine ⟨⟨116, [114, 117, 110, 99, 97, 116, 101], rfl, by decide, by decide, by decide⟩, ?_⟩
+    intro a ha
+    simp only [List.mem_cons, List.mem_nil_iff, or_false] at ha
+    rcases ha with rfl | rfl <;> decide
+  · exact ⟨⟨105, [100], rfl, by decide, by decide, by decide⟩, fun a ha => by cases ha⟩
+
+theorem exCmd_canon : CmdCanon ff0 pf0 exArg exDirs := by
+  refine ⟨by simp only [exArg, i, v, Canon, CanonAL]; decide, ?_⟩
+  intro d hd a ha
+  simp only [exDirs, List.mem_cons, List.mem_nil_iff, or_false] at hd
+  rcases hd with rfl | rfl
+  · simp only [List.mem_cons, List.mem_nil_iff, or_false] at ha
+    rcases ha with rfl | rfl <;> (simp only [i, v, Canon, CanonAL]; decide)
+  · cases ha
+
+example : ∃ items e' ds' p2, lexAll (printPrint ff0 exArg exDirs) false = .items items ∧
+    parsePrint pf0 (8 * items.length + 1) (2 * items.length + 2) Item.zero { p := initState items.tail } =
+      .ok (Node.print 0 e' ds', { p := p2 }) ∧
+    erase e' = erase exArg ∧ ds'.map eraseDir = exDirs.map eraseDir ∧ At p2 [⟨.tEOF, []⟩] :=
+  print_cmd_roundtrip_bytes ff0 pf0 exArg exDirs exCmd_ok exCmd_canon Item.zero
+
 end SoyVerif.Inst.C17c
